@@ -13,6 +13,8 @@ type genCtx struct {
 	// layout deviation is already known and symbolic contents would only multiply paths)
 	concreteInStrict bool
 	inStrict         int
+	// concrete: all scalar contents are fixed values (structure-only exploration)
+	concrete bool
 }
 
 func newGen() *genCtx {
@@ -23,7 +25,7 @@ func newGen() *genCtx {
 }
 
 func (g *genCtx) str(boundary bool) string {
-	if g.concreteInStrict && g.inStrict > 0 {
+	if g.concrete || g.concreteInStrict && g.inStrict > 0 {
 		return []string{"", "k"}[vChoice(2)]
 	}
 	if boundary && vTier() == 1 && vChoice(4) == 0 {
@@ -45,18 +47,18 @@ func (g *genCtx) gen(depth int) (Amf0, *refVal) {
 	switch vChoice(kinds) {
 	case 0:
 		bits := vU64()
-		if g.concreteInStrict && g.inStrict > 0 {
+		if g.concrete || g.concreteInStrict && g.inStrict > 0 {
 			vAssume(bits == 0x3ff8000000000000)
 		}
 		return NewNumber(math.Float64frombits(bits)), &refVal{kind: 0, num: bits}
 	case 1:
 		b := vBool()
-		if g.concreteInStrict && g.inStrict > 0 {
+		if g.concrete || g.concreteInStrict && g.inStrict > 0 {
 			vAssume(b)
 		}
 		tb := vU8() // the byte an independent encoder uses for true: any non-zero value
 		vAssume(tb != 0)
-		if g.concreteInStrict && g.inStrict > 0 {
+		if g.concrete || g.concreteInStrict && g.inStrict > 0 {
 			vAssume(tb == 1)
 		}
 		return NewBoolean(b), &refVal{kind: 1, b: b, tb: tb}
